@@ -408,10 +408,8 @@ pub fn replay_with(_idx: usize, rec: &Value, format_first: bool) -> Value {
     let ex = &rec["expect"];
     let names = |t: &Value| -> Vec<String> { t.as_object().map(|o| o.keys().cloned().collect()).unwrap_or_default() };
     QUERY_NAMES.with(|q| {
-        let (mut a, mut c) = (names(&ex["lookup_acct"]), names(&ex["lookup_cmdt"]));
-        a.push("Never:Mentioned".to_string());
-        c.push("NEVERMENTIONED".to_string());
-        *q.borrow_mut() = (a, c);
+        // (only names the ledger mentions: what a lookup of a never-mentioned name answers is not part of any property)
+        *q.borrow_mut() = (names(&ex["lookup_acct"]), names(&ex["lookup_cmdt"]));
     });
     let out = run_process(&r.text);
     QUERY_NAMES.with(|q| *q.borrow_mut() = (Vec::new(), Vec::new()));
